@@ -49,7 +49,7 @@ type Node struct {
 	Pre   bool  `json:"pre,omitempty"`  // the node has a state pre-handler (taskManager.submit runs it: preProcessor)
 	Post  bool  `json:"post,omitempty"` // the node has a state post-handler (taskManager.waitOne runs it: postProcessor)
 	Slow  bool  `json:"slow,omitempty"` // body sleeps 25-40 ms (eager: widen the return window)
-	Sub   int   `json:"sub,omitempty"`  // the node is a nested Graph with two parallel inner nodes (the body, and a node that returns an empty map after a seeded delay): 1 any-predecessor, 2 all-predecessor inner graph
+	Sub   int   `json:"sub,omitempty"`  // the node is a nested Graph with two parallel inner nodes (the body, and a node that returns an empty map after a seeded delay): 1 any-predecessor, 2 all-predecessor inner graph; 3 / 4: the same two with the second inner node feeding nothing (the nested run, a Graph, still has to collect it before it returns)
 }
 
 // Branch: a multi-branch on node From whose condition always selects Sel (a subset of Ends).
@@ -144,6 +144,7 @@ type runState struct {
 	post    []int32            // per node id: calls of its state post-handler
 	postNil int32              // post-handler calls that were handed a nil output (the execution had failed)
 	cancel  context.CancelFunc // cancels the context of this run (behaviour 5 of a node)
+	inner   []int32            // per node id: inner nodes (of the nested graph the node is) that are running
 }
 
 // hstate is the local state of a graph whose nodes carry state handlers
@@ -152,18 +153,19 @@ type hstate struct{ calls int }
 type rsKey struct{}
 
 type runObs struct {
-	Class   string   `json:"class"` // val | err | panic | hang
-	Val     []uint64 `json:"val,omitempty"`
-	Log     []exec   `json:"log"`
-	Running []int    `json:"running,omitempty"` // bodies started and not finished at return
-	events  []compose.VerifC03Event
-	spawned int
-	collect int // completed collector sections (unlockC): a task counts as collected for the protocol model after it
-	recvd   int // tasks the collector received from the hand-off channel
-	wd      time.Duration
-	proto   string // "" or what is wrong with the submit/collect bookkeeping seen in the trace
-	handler string // "" or what is wrong with the calls of the state handlers (pre/post processors)
-	flag    string // "" or a handed-off task whose error flag is not the outcome of its body
+	Class        string   `json:"class"` // val | err | panic | hang
+	Val          []uint64 `json:"val,omitempty"`
+	Log          []exec   `json:"log"`
+	Running      []int    `json:"running,omitempty"`       // bodies started and not finished at return
+	InnerRunning []int    `json:"inner_running,omitempty"` // nested graph nodes an inner node of which is running at return
+	events       []compose.VerifC03Event
+	spawned      int
+	collect      int // completed collector sections (unlockC): a task counts as collected for the protocol model after it
+	recvd        int // tasks the collector received from the hand-off channel
+	wd           time.Duration
+	proto        string // "" or what is wrong with the submit/collect bookkeeping seen in the trace
+	handler      string // "" or what is wrong with the calls of the state handlers (pre/post processors)
+	flag         string // "" or a handed-off task whose error flag is not the outcome of its body
 }
 
 type built struct {
@@ -280,7 +282,10 @@ func (b *built) subGraph(n *Node) (compose.AnyGraph, []compose.GraphAddNodeOpt, 
 	}
 	id := n.ID
 	if err := g.AddLambdaNode("y", compose.InvokableLambda(func(ctx context.Context, in map[string]any) (map[string]any, error) {
-		h := mix(b.rsOf(ctx).seed, uint64(id)+5003)
+		rs := b.rsOf(ctx)
+		atomic.AddInt32(&rs.inner[id], 1)
+		defer atomic.AddInt32(&rs.inner[id], -1)
+		h := mix(rs.seed, uint64(id)+5003)
 		switch h % 4 {
 		case 1:
 			runtime.Gosched()
@@ -293,13 +298,17 @@ func (b *built) subGraph(n *Node) (compose.AnyGraph, []compose.GraphAddNodeOpt, 
 	})); err != nil {
 		return nil, nil, err
 	}
-	for _, e := range [][2]string{{compose.START, "x"}, {compose.START, "y"}, {"x", compose.END}, {"y", compose.END}} {
+	edges := [][2]string{{compose.START, "x"}, {compose.START, "y"}, {"x", compose.END}, {"y", compose.END}}
+	if n.Sub >= 3 {
+		edges = edges[:3] // y feeds nothing
+	}
+	for _, e := range edges {
 		if err := g.AddEdge(e[0], e[1]); err != nil {
 			return nil, nil, err
 		}
 	}
 	var opts []compose.GraphAddNodeOpt
-	if n.Sub == 2 {
+	if n.Sub == 2 || n.Sub == 4 {
 		opts = append(opts, compose.WithGraphCompileOptions(compose.WithNodeTriggerMode(compose.AllPredecessor)))
 	}
 	return g, opts, nil
@@ -461,7 +470,7 @@ func watchdog() time.Duration {
 
 func (b *built) once(seed uint64, traced bool) *runObs {
 	rs := &runState{seed: seed, state: make([]int32, b.maxID+1), starts: make([]int32, b.maxID+1), logMu: make(chan struct{}, 1),
-		pre: make([]int32, b.maxID+1), post: make([]int32, b.maxID+1)}
+		pre: make([]int32, b.maxID+1), post: make([]int32, b.maxID+1), inner: make([]int32, b.maxID+1)}
 	rs.logMu <- struct{}{}
 	runCtx, cancel := context.WithCancel(context.WithValue(context.Background(), rsKey{}, rs))
 	rs.cancel = cancel
@@ -495,6 +504,9 @@ func (b *built) once(seed uint64, traced bool) *runObs {
 		if atomic.LoadInt32(&rs.state[id]) == 1 {
 			o.Running = append(o.Running, id)
 		}
+		if atomic.LoadInt32(&rs.inner[id]) > 0 {
+			o.InnerRunning = append(o.InnerRunning, id)
+		}
 	}
 	var atReturn []compose.VerifC03Event
 	if traced {
@@ -518,7 +530,7 @@ func (b *built) once(seed uint64, traced bool) *runObs {
 		for time.Now().Before(deadline) {
 			busy := false
 			for id := 2; id <= b.maxID; id++ {
-				if atomic.LoadInt32(&rs.state[id]) == 1 {
+				if atomic.LoadInt32(&rs.state[id]) == 1 || atomic.LoadInt32(&rs.inner[id]) > 0 {
 					busy = true
 				}
 				// a task whose pre-handler has run (submit) has been handed to a goroutine that may
@@ -645,10 +657,15 @@ func (b *built) once(seed uint64, traced bool) *runObs {
 	return o
 }
 
+// mainTM: the task manager of the run itself = the one that starts a task of an outer node (keys n<id>; the
+// inner nodes of a nested graph are x / y). The task manager of a nested run - also one abandoned by an earlier
+// eager run or an earlier case, which may still log events after this run has begun - is never the main one.
 func mainTM(evs []compose.VerifC03Event) int {
 	for _, e := range evs {
-		if e.Kind == "spawn" || e.Kind == "sync" || e.Kind == "empty" || e.Kind == "await" {
-			return e.TM
+		if e.Kind == "spawn" || e.Kind == "sync" {
+			if _, ok := nodeNum(e.Key); ok {
+				return e.TM
+			}
 		}
 	}
 	return -1
@@ -1054,11 +1071,16 @@ func (engine) Generate(r *lib.Rng, tier string, i int) any {
 	}
 	// one case in five: one to three nodes are nested graphs (a task manager of their own, two parallel inner
 	// tasks one of which returns an empty map; the node's value for the model is unchanged: {n: in})
-	if r.Chance(1, 5) {
+	// (not beside a node that cancels the context of the run: a nested run looks at the context itself)
+	cancels := false
+	for _, n := range c.Nodes {
+		cancels = cancels || n.Fail == 5
+	}
+	if r.Chance(1, 5) && !cancels {
 		for k := r.Range(1, 3); k > 0; k-- {
 			n := &c.Nodes[r.Intn(len(c.Nodes))]
-			if n.ID != idEnd && n.Fail != 5 {
-				n.Sub = r.Range(1, 2)
+			if n.ID != idEnd {
+				n.Sub = r.Range(1, 4)
 			}
 		}
 	}
@@ -1586,6 +1608,15 @@ func (engine) Run(ci any) lib.Result {
 			default:
 				fail("returned-before-nodes-finished",
 					fmt.Sprintf("%s run returned (%s) while node(s) %v were still running", c.Mode, o.Class, o.Running))
+			}
+		}
+		// a nested graph is a Graph: it collects every task it started before it returns, so no inner node
+		// of a nested node that has completed is still running. (An eager run may abandon a nested node
+		// that does not feed END, or any node once it has failed: then the nested run is still going on.)
+		if len(o.InnerRunning) > 0 {
+			if c.Mode != "eager" || o.Class == "val" && !allNonAnc(b, o.InnerRunning) {
+				fail("returned-before-nodes-finished",
+					fmt.Sprintf("%s run returned (%s) while an inner node of the nested graph node(s) %v was still running", c.Mode, o.Class, o.InnerRunning))
 			}
 		}
 		if o.proto != "" {
